@@ -297,6 +297,25 @@ func (c *checker) base(t *Term, a Val, pos int, parent int) int {
 		for i, e := range a.Elems {
 			if i > 0 {
 				// separator: a token of the separator's kind (not delivered)
+				if t.Sep.Kind == NT && !c.withE && pos < floating {
+					// a rule as separator: its action runs (bottom-up it is the
+					// next call in order) but its result is delivered to nobody
+					id := c.after()
+					if id >= len(c.log) || c.log[id].Rule != t.Sep.ID {
+						c.fail("action %d: the action of the separator rule %d expected as call %d", parent, t.Sep.ID, id)
+						return pos
+					}
+					pos = c.node(id, pos)
+					if c.err != "" {
+						return pos
+					}
+					pos = c.base(t.Elem, e, pos, parent)
+					if c.err != "" {
+						return pos
+					}
+					c.emitBound(Val{Kind: VList, Elems: a.Elems[:i+1]}, span{start, pos}, c.after())
+					continue
+				}
 				if t.Sep.Kind != Tok {
 					c.fail("list separator must be a token in the corpus")
 					return pos
